@@ -385,6 +385,9 @@ func (p *Planner) newInvertableTypeJoin(
 		// we store child's own filter in case an index kicks in and replaces it with it's own filter
 		subFilter: getNode[*scanNode](childSide.plan).filter,
 	}
+	if parentScan := getNode[*scanNode](sourcePlan); parentScan != nil {
+		join.parentFilter = parentScan.filter
+	}
 
 	return join, nil
 }
@@ -490,6 +493,9 @@ type invertibleTypeJoin struct {
 
 	// the filter of the subnode to store in case it's replaced by an index filter
 	subFilter *mapper.Filter
+	// the parent scan's own filter, to be kept when the parent is the primary side of an
+	// inverted join and its documents are fetched per secondary document
+	parentFilter *mapper.Filter
 
 	secondaryFetchLimit uint
 
@@ -710,8 +716,13 @@ func (join *invertibleTypeJoin) Next() (bool, error) {
 	if firstSide.isPrimary() {
 		return join.fetchRelatedSecondaryDocWithChildren(firstSide.plan.Value())
 	} else {
+		primaryFilter := join.subFilter
+		if join.parentSide.isPrimary() {
+			// the primary documents are the parent's: its own filter applies, not the child's
+			primaryFilter = join.parentFilter
+		}
 		primaryDocs, secondaryDoc, err := fetchPrimaryDocsReferencingSecondaryDoc(
-			join.getPrimarySide(), join.getSecondarySide(), firstSide.plan.Value(), join.subFilter)
+			join.getPrimarySide(), join.getSecondarySide(), firstSide.plan.Value(), primaryFilter)
 		if err != nil {
 			return false, err
 		}
